@@ -571,6 +571,7 @@ func (tr *fnTrans) run() {
 		tr.params[fv.Name()] = t
 		tr.hyp(tr.wf(t, "alloc0"))
 	}
+	tr.typedMapFacts("alloc0")
 	tr.entryEnv = tr.env()
 	// modifies targets (entry state)
 	for _, m := range c.Modifies {
@@ -597,6 +598,15 @@ func (tr *fnTrans) run() {
 		}
 		tr.oblige("lemma", fmt.Sprintf("lemma[%s]", labelOr(a.Label, i)), t.S, a.Src, fn.Pos())
 		tr.hyp(t.S)
+	}
+	if c.NonRec {
+		goal := "true"
+		if cyc := callCycle(fn); cyc != "" {
+			goal = "false"
+			tr.oblige("structural", "nonrecursive", goal, "the function must not be part of a call cycle: "+cyc, fn.Pos())
+		} else {
+			tr.oblige("structural", "nonrecursive", goal, "no call cycle through this function (stack use independent of the number of events)", fn.Pos())
+		}
 	}
 	if c.Trusted || len(fn.Blocks) == 0 {
 		return
@@ -794,6 +804,16 @@ func (tr *fnTrans) ancestors(b *ssa.BasicBlock) map[int]bool {
 	}
 	tr.ancCache[b] = m
 	return m
+}
+
+// typedMapFacts: the ghost set T_<S> of objects allocated with struct type S only contains allocated ids
+func (tr *fnTrans) typedMapFacts(alloc string) {
+	for _, m := range tr.mapOrder {
+		if strings.HasPrefix(m, "T_") {
+			h := tr.curHeap(m)
+			tr.hyp(fmt.Sprintf("(forall ((o!t Int)) (! (=> (select %s o!t) (and (< 0 o!t) (< o!t %s))) :pattern ((select %s o!t))))", h, alloc, h))
+		}
+	}
 }
 
 // touchedByMods: cells of map `name` that a step framed by (allocBefore, targets) may change
@@ -1297,6 +1317,7 @@ func (tr *fnTrans) havocLoop(li *loopInfo, b *ssa.BasicBlock) {
 			tr.hyp(implies(tr.inB[b], t.S))
 		}
 	}
+	tr.typedMapFacts(tr.alloc)
 	for _, m := range maps {
 		tr.hyp(tr.frameFormula(m, tr.heapEntry(m), tr.heap[m], "alloc0", tr.modTerms))
 		tr.atStep(m, tr.heapEntry(m), tr.heap[m], tr.touchedByMods("alloc0", m, tr.modTerms), tr.touchedByMods("alloc0", m, tr.modTerms))
@@ -1354,4 +1375,42 @@ func (tr *fnTrans) checkPure() {
 			}
 		}
 	}
+}
+
+// callCycle returns a description of a static call cycle through fn, or "".
+func callCycle(fn *ssa.Function) string {
+	seen := map[*ssa.Function]bool{}
+	var path []string
+	var dfs func(f *ssa.Function) bool
+	dfs = func(f *ssa.Function) bool {
+		for _, b := range f.Blocks {
+			for _, in := range b.Instrs {
+				call, ok := in.(ssa.CallInstruction)
+				if !ok {
+					continue
+				}
+				callee := call.Common().StaticCallee()
+				if callee == nil || callee.Pkg != fn.Pkg {
+					continue
+				}
+				if callee == fn {
+					path = append(path, fnKey(f)+" -> "+fnKey(fn))
+					return true
+				}
+				if seen[callee] {
+					continue
+				}
+				seen[callee] = true
+				if dfs(callee) {
+					path = append(path, fnKey(f)+" -> "+fnKey(callee))
+					return true
+				}
+			}
+		}
+		return false
+	}
+	if dfs(fn) {
+		return strings.Join(path, "; ")
+	}
+	return ""
 }
